@@ -26,7 +26,7 @@ func init() {
 		Phases: func(tier string, seed int64) []Phase {
 			return []Phase{{Name: "pipelines", Run: c06Run}}
 		},
-		MinObserved: []string{"requests_numbered", "rendezvous_satisfied", "cross_connection_rendezvous_satisfied", "pipelines_with_starttls_upgrade", "pipelines_with_a_handler_blocked_in_write", "requests_served_through_the_default_route", "pipelines_with_repeated_message_ids", "connections_served_while_another_connections_handler_is_blocked", "fire_and_forget_pipelines", "pipelines_on_a_server_without_panic_recovery", "connections_with_a_handler_outliving_the_read_timeout", "pipelines_over_a_tls_listener", "pipelines_on_a_server_with_a_read_timeout"},
+		MinObserved: []string{"requests_numbered", "rendezvous_satisfied", "cross_connection_rendezvous_satisfied", "pipelines_with_starttls_upgrade", "pipelines_with_a_handler_blocked_in_write", "requests_served_through_the_default_route", "pipelines_with_repeated_message_ids", "connections_served_while_another_connections_handler_is_blocked", "fire_and_forget_pipelines", "pipelines_on_a_server_without_panic_recovery", "connections_with_a_handler_outliving_the_read_timeout", "pipelines_over_a_tls_listener", "pipelines_on_a_server_with_a_read_timeout", "extended_requests_under_well_known_names"},
 	})
 }
 
@@ -63,6 +63,8 @@ var (
 	c06PKI     *PKI
 )
 
+var c06WellKnown = []string{"1.3.6.1.1.8", "1.3.6.1.4.1.4203.1.11.3", "1.3.6.1.4.1.4203.1.11.1", "1.3.6.1.4.1.1466.20036", "1.3.6.1.1.21.1"}
+
 func c06ExtName(conn, pos int) string { return fmt.Sprintf("1.9.%d.%d", conn, pos) }
 
 func (q *c06Req) encode() []byte {
@@ -91,6 +93,7 @@ func c06Pipeline(c *Ctx, r *Rand, idx int) {
 		nconn = 2
 	}
 	conns := make([]*c06Conn, nconn)
+	wellKnownUsed := map[string]bool{}
 	kinds := []string{"bind", "search", "modify", "add", "delete", "ext", "ext-noroute"}
 	withDefault := r.Chance(40)
 	viaDefaultAdd, viaDefaultDelete := withDefault && r.Bool(), withDefault && r.Bool()
@@ -111,6 +114,13 @@ func c06Pipeline(c *Ctx, r *Rand, idx int) {
 			q.Route = q.Kind != "ext-noroute"
 			if strings.HasPrefix(q.Kind, "ext") {
 				q.Ext = c06ExtName(ci, p)
+				// now and then an operation everybody knows by name (each at most once per pipeline: the name identifies
+				// the request): Cancel, Who am I?, Password Modify, Notice of Disconnection
+				if wk := pick(r, c06WellKnown); q.Kind == "ext" && r.Chance(30) && !wellKnownUsed[wk] {
+					wellKnownUsed[wk] = true
+					q.Ext = wk
+					c.Count("extended_requests_under_well_known_names", 1)
+				}
 				if q.Kind == "ext-noroute" {
 					q.Ext = "2.9." + q.Ext
 				}
